@@ -47,7 +47,9 @@ SPEC = dict(
             "representatives; MGDA and CAGrad (4-11 ms per call) on the orbits / members of the structural sublist (smallest member of "
             "each class under row permutation, column permutation and column sign flips; exhaustive:false for these two in this tier); "
             "3x3: structural sublist (136 classes, their full B_3 orbits), fast aggregators; D(seed) and dense2(seed), 2 matrices each, "
-            "shapes 3x3,4x3,5x3 (every Q in B_3) and 2x4,3x4,4x4 (every permutation in S_4)"
+            "shapes 3x3,4x3,5x3 (every Q in B_3) and 2x4,3x4,4x4 (every permutation in S_4); special families: norm_eps above every entry, up to 70 000 "
+            "zero columns, square-to-wide with sigma_min/sigma_max down to 1e-9, native-seed PCGrad/Random/GradDrop, instance re-use on temporaries and views, "
+            "tall float32 Krum, torchjd.backward with row-/column-major parameters"
         ),
         thorough=(
             "all 21 297 {-1,0,1} matrices up to 3x3: every B_n orbit completely and Givens / Householder / zero-column insertion on every "
